@@ -116,11 +116,41 @@ def pairs_conform(deps, rate, cap, what):
     return None
 
 
+# ------------------------------------------------------------------------------------------------
+# second tie (DESIGN 2.6), the put() bodies only: TokenBucket.put / TwoRateTokenBucket.put translated from the tree under
+# test on every run (vlib/translate.py, fail closed) into coq/Gen/Extracted_bucketput.v; bridged to the TPut / RPut steps of
+# Elem/Bucket.v / Elem/TwoRate.v by coq/Elem/BucketPutBridge.v; obligations in Props/C11_BridgePut.v.  The refill / debit
+# arithmetic sits in the run() generators, which vlib/translate.py does not translate.
+
+BUCKETPUT_CONS = [("FxStorePut", "")]                 # self.store.put(packet)
+BUCKETPUT_FX = [("self.store.put(packet)", "FxStorePut", [])]
+
+
+def extracted_bucketput(repo):
+    import os
+    from vlib import translate as tr
+    nd = os.path.join(repo, "onl", "netdev")
+    specs = [tr.FnSpec(os.path.join(nd, "token_bucket.py"), "TokenBucket", "put", "gen_TokenBucket_put", effects=BUCKETPUT_FX),
+             tr.FnSpec(os.path.join(nd, "two_level_token_bucket.py"), "TwoRateTokenBucket", "put", "gen_TwoRateTokenBucket_put",
+                       effects=BUCKETPUT_FX)]
+    return tr.gen_module("onl/netdev/token_bucket.py: TokenBucket.put; two_level_token_bucket.py: TwoRateTokenBucket.put",
+                         "bput_st", "b_", [("packets_received", "Z")], "bput_fx", BUCKETPUT_CONS, specs)
+
 class BucketPart:
     name = "bucket"
     kinds = ["tb", "trtb", "tb2", "trtb2"]
     serves = ["C11", "C08"]
-    props_files = {"C11": ["Props/C11.v"], "C08": ["Props/C08_Bucket.v"]}
+    props_files = {"C11": ["Props/C11.v", "Props/C11_BridgePut.v"], "C08": ["Props/C08_Bucket.v"]}
+
+    # ---- second tie (put bodies): regenerate before the Coq build (fail closed) ----------------------------
+    def pre_build(self, prop_id):
+        if prop_id != "C11":
+            return
+        import os
+        from vlib import framework as fw
+        from vlib import translate as tr
+        tr.write_if_changed(os.path.join(fw.COQ, "Gen", "Extracted_bucketput.v"), extracted_bucketput(fw.REPO))
+
     coq_imports = ["From ONL Require Import Base.Cmp Elem.Packet Elem.StoreQ Elem.Bucket Elem.TwoRate."]
     weight = 1
     nontrivial_rule = {
@@ -137,7 +167,10 @@ class BucketPart:
     trusted_base = {
         "C11": ["float rounding is outside the theorems: generated rates are powers of two and times/sizes dyadic so that every "
                 "float the buckets compute is exact; the comparison with the model is exact (Qeq_bool)",
-                "packet.color is read by the recording sink at the moment of out.put"],
+                "packet.color is read by the recording sink at the moment of out.put",
+                "vlib/translate.py (Python ast, fail closed) regenerates coq/Gen/Extracted_bucketput.v from TokenBucket.put / "
+                "TwoRateTokenBucket.put of the tree under test before every build; C11_gen_*_put (Props/C11_BridgePut.v) bridge them "
+                "to the TPut / RPut steps; the refill arithmetic (in run()) is not covered by this tie"],
         "C08": ["float rounding is outside the theorems (dyadic workloads)"],
     }
     assumptions = {
